@@ -518,8 +518,17 @@ func (enc *encryptInfo) DecryptStream(ref Reference, r io.Reader) (io.Reader, er
 	case cipherAES:
 		buf := make([]byte, 32)
 		iv := buf[:16]
-		_, err := io.ReadFull(r, iv)
-		if err != nil {
+		n, err := io.ReadFull(r, iv)
+		if err == io.EOF && n == 0 {
+			// an empty stream, stored without initialisation vector and
+			// padding (common in files of other producers): empty data
+			return io.LimitReader(r, 0), nil
+		} else if err == io.ErrUnexpectedEOF {
+			// a defect of the file, not of the byte source
+			return nil, &MalformedFileError{
+				Err: errors.New("AES stream shorter than its initialisation vector"),
+			}
+		} else if err != nil {
 			return nil, err
 		}
 
@@ -1417,7 +1426,7 @@ func (r *decryptReader) Read(p []byte) (int, error) {
 			if err == io.EOF {
 				r.r = nil
 				if k%16 != 0 {
-					return 0, errCorrupted
+					return 0, &MalformedFileError{Err: errCorrupted}
 				}
 			} else if err != nil {
 				return 0, err
@@ -1446,7 +1455,7 @@ func (r *decryptReader) Read(p []byte) (int, error) {
 			// whole buffer; r.reserved is empty
 			unpadded, err := unpadPKCS7(r.ready)
 			if err != nil {
-				return 0, err
+				return 0, &MalformedFileError{Err: err}
 			}
 			r.ready = unpadded
 		}
